@@ -7,7 +7,12 @@ Property theorems only. The object is the transition system `GqlModel.Cancel.ste
 caller / background executor / buffered result channel / context of `ExecutePlan`, see the anchors there).
 `run … acts = some s` says that the schedule `acts` is a possible run ending in `s`. All theorems quantify over
 every schedule of any length, every list of resolvers (failing or not, watching the context or not) and every
-moment of cancellation or deadline expiry (`ctxDone e` may occur anywhere in the schedule, also first). -/
+moment of cancellation or deadline expiry (`ctxDone e` may occur anywhere in the schedule, also first).
+
+The machine has no notion of operation kind: `ExecutePlan`'s `select` and its single send are the same code for
+queries and mutations (a mutation only fixes the order of the top-level resolver steps, which the model runs in
+sequence anyway), so `never_blocks` and `prompt_after_cancel` are statements about cancelled mutations as much as
+about queries; the harness drives both (`query { f0 … }`, `mutation { m0 … }`). -/
 namespace GqlModel.Cancel
 
 /-- Tie to the code, re-checked against the regenerated table on every run: `ExecutePlan` makes exactly one
